@@ -72,7 +72,9 @@ func runC45(c *eng.Ctx) {
 			return ok && eng.ExprString(ix.X) == "seriesReturned"
 		})
 		ev.Has("R1", retStore, 1)
-		ev.Only("R1", retStore, "lies in the else arm of the append's `err != nil`", func(l eng.Loc) bool { return ev.UnderCondFalse(l, "err != nil") })
+		ev.Only("R1", retStore, "lies in the else arm of the append's `err != nil`", func(l eng.Loc) bool {
+			return ev.UnderCondArmAfter(l, false, eng.Or(eng.OnVar("app", "Append"), eng.OnVar("app", "AppendHistogram")), "err != nil")
+		})
 		ev.Dom("R1", eng.Or(eng.OnVar("app", "Append"), eng.OnVar("app", "AppendHistogram")), retStore)
 		// stale markers for what the previous successful evaluation produced and this one did not
 		ev.AllPaths("R1", appender, eng.LoopOver(staleAppend), eng.AnyExit)
